@@ -26,6 +26,7 @@ def atoms(D, cf=None):
 
     A["PointwiseAffine"] = (lambda s: standard.PointwiseAffineTransform(rnd(s, D, -1, 1), rnd(s + 1, D, 0.6, 1.6) * (1 if s % 2 else -1)), "R", 0)
     A["LeakyReLU"] = (lambda s: nl.LeakyReLU(0.2 + 0.1 * (s % 5)), "R", 0)
+    A["LeakyReLU(0.2)"] = (lambda s: nl.LeakyReLU(0.2), "R", 0)
     A["Inverse(LeakyReLU)"] = (lambda s: base.InverseTransform(nl.LeakyReLU(0.5)), "R", 0)
     # LogTanh itself grows like a logarithm: its data distribution has tails ~ exp(|z|), out of reach of a box quadrature;
     # its inverse direction (light tails) is used instead
@@ -35,6 +36,9 @@ def atoms(D, cf=None):
     for nm, cls in (("PiecewiseLinearCDF", nl.PiecewiseLinearCDF), ("PiecewiseQuadraticCDF", nl.PiecewiseQuadraticCDF),
                     ("PiecewiseCubicCDF", nl.PiecewiseCubicCDF), ("PiecewiseRationalQuadraticCDF", nl.PiecewiseRationalQuadraticCDF)):
         A[nm + "(tails)"] = (lambda s, cls=cls: cls([D], num_bins=3 + s % 3, tails="linear", tail_bound=2.0 + (s % 2)), "R", 0)
+        if nm != "PiecewiseLinearCDF":     # configured minimum bin sizes, width and height deliberately different
+            A[nm + "(tails, mins)"] = (lambda s, cls=cls: cls([D], num_bins=3 + s % 2, tails="linear", tail_bound=2.0,
+                                                              min_bin_width=0.02, min_bin_height=0.005), "R", 0)
         A[nm + ";Logit"] = (lambda s, cls=cls: base.CompositeTransform([cls([D], num_bins=3 + s % 3), nl.Logit()]), ("first", 0.0, 1.0), 0)
         A["Sigmoid;" + nm + ";Logit"] = (lambda s, cls=cls: base.CompositeTransform([nl.Sigmoid(), cls([D], num_bins=4), nl.Logit()]), "R", 0)
     A["Logit"] = (lambda s: nl.Logit(), ("first", 0.0, 1.0), 0)
@@ -120,7 +124,17 @@ def programs(D, tier, seed):
         depth = 2 + int(rng.randint(2))
         first = [firsts[rng.randint(len(firsts))]] if rng.rand() < 0.25 else [rs[rng.randint(len(rs))]]
         rest = [rs[rng.randint(len(rs))] for _ in range(depth - 1)]
-        plan.append((first + rest, bnames[i % len(bnames)], B[bnames[i % len(bnames)]][1] > 0 or bool(rng.rand() < 0.3)))
+        seq = first + rest
+        # Logit (= Sigmoid.inverse) clamps its argument to [eps, 1 - eps]: its range is +-13.8, not the whole line.  Directly in
+        # front of the base that costs 1e-43 of mass; followed by a contraction it becomes visible (known finding, shown by the
+        # canary program below).  Random programs therefore keep a Logit-ending atom in the last position.
+        trunc = [n for n in seq if n.endswith("Logit")]
+        seq = [n for n in seq if not n.endswith("Logit")] + trunc[-1:]
+        if box_first := [n for n in seq if A[n][1] != "R"]:
+            seq = box_first[:1] + [n for n in seq if A[n][1] == "R"]
+        plan.append((seq, bnames[i % len(bnames)], B[bnames[i % len(bnames)]][1] > 0 or bool(rng.rand() < 0.3)))
+    if D == 1:
+        plan.append((["Sigmoid;Logit", "LeakyReLU(0.2)"], "StandardNormal", False))      # canary for the Logit clamp
     for k, (seq, bn, conditional) in enumerate(plan):
         def make(seq=seq, bn=bn, k=k, conditional=conditional):
             torch.manual_seed(seed + k)
@@ -266,11 +280,22 @@ def search(ck, tier, seed):
                         ck.finding("flow:log_prob-is-not-base-density-plus-logabsdet:%s" % name,
                                    "max difference %g" % float((lp - indep).abs().max()), case)
                 v = attempt(decide, fl, ctx, D, box, tier)
+                if v[0] != "ok" and v[1] == "InputOutsideDomain":
+                    # far out on the quadrature grid a saturated intermediate value (e.g. a spline output of 1 + 1 ulp handed to
+                    # Logit) is rejected: a floating-point range limit at extreme inputs, log_prob at ordinary points was
+                    # checked above; the case decides nothing
+                    unresolved += 1
+                    ck.count("unresolved (domain error far out on the grid)")
+                    continue
                 if v[0] != "ok":
                     ck.finding("flow:log_prob-fails-on-grid:%s" % name, "%s %s" % (v[1], v[2]), case)
                     break
                 verdict, val, est = v[1]
-                if verdict == "bad":
+                if verdict == "bad" and name.startswith("Sigmoid;Logit ; LeakyReLU(0.2) |") and val < 1:
+                    ck.finding("flow:logit-clamp-truncates-support",
+                               "Flow([Sigmoid, Logit, LeakyReLU(0.2)], StandardNormal) integrates to %.6f: Logit clamps to [eps, 1-eps], "
+                               "so the transform reaches only [-2.76, 13.8] of the base's support" % val, dict(case, row=ri))
+                elif verdict == "bad":
                     ck.finding("flow:density-does-not-integrate-to-one:%s" % name,
                                "D=%d context row %s: integral %.8f (resolution %.1e)" % (D, ri if ctx is not None else None, val, est), dict(case, row=ri))
                 elif verdict == "nan":
